@@ -39,6 +39,33 @@ Theorem C14_abor_any_moment : forall st,
 Proof. exact (fun st => abor_any_moment_repaired genF st C14_facts_ok). Qed.
 Print Assumptions C14_abor_any_moment.
 
+(* MORE THAN ONE transfer alive in the session (a second PASV + data connection + transfer command while the first
+   still runs).  Proved for ANY number of workers, at least one of them unfinished: ABOR stops ALL of them - after the
+   unwinding every worker is terminal and holds neither its data stream nor a file, what it had moved is unchanged
+   (a prefix), the session record is untouched.  NOT proved for n >= 2 (the `<= 1` of C14_abor_any_moment): the exact
+   reply sequence (426,226 once per interrupted transfer) and the reaping; these are validated: the executable
+   model's abor_run is compared with the real server on two simultaneous transfers (harness stream "two") and the
+   oracle demands 426,226 for each, both data connections closed, no late completion reply. *)
+Theorem C14_abor_stops_all_transfers : forall st,
+  reachable genF st -> alive (ss st) = true ->
+  existsb (fun w => negb (terminal (w_stage w))) (ws st) = true ->
+  Forall (good_w genF) (ws (unwind genF (fst (step genF st Abor))))
+  /\ Forall2 same_data (ws st) (ws (unwind genF (fst (step genF st Abor))))
+  /\ ss (unwind genF (fst (step genF st Abor))) = ss st.
+Proof. exact (fun st => abor_stops_all_repaired genF st C14_facts_ok). Qed.
+Print Assumptions C14_abor_stops_all_transfers.
+
+(* non-vacuity: two transfers alive (an upload in its loop, a download parked on the file open); the model's
+   replies are 426,226 for each and the ledger's data / file slots are empty afterwards *)
+Example C14_two_transfers_nonvacuous :
+  let st := at_trace (pre_data ++ [Spawn KStor [1;2]%Z; WStep 0; WStep 0; WStep 0; WStep 0; WStep 0;
+                                   DataArrives; Spawn KRetr [1;2;3]%Z; WStep 1; WStep 1; WStep 1]) in
+  alive (ss st) = true /\ map w_stage (ws st) = [Loop 0; EnteringCtx 1]
+  /\ existsb (fun w => negb (terminal (w_stage w))) (ws st) = true
+  /\ snd (abor_run genF st) = [426; 226; 426; 226]%Z
+  /\ nth 4 (ledger genF (fst (abor_run genF st))) 0%Z = 0%Z /\ nth 5 (ledger genF (fst (abor_run genF st))) 0%Z = 0%Z.
+Proof. vm_compute. repeat split; reflexivity. Qed.
+
 (* in the transfer body (from the detach to the last __aexit__, the back-end open included, any number k of blocks
    moved, any payload): exactly 426 then 226 *)
 Theorem C14_abor_in_body : forall st w,
